@@ -50,9 +50,35 @@ def lag_cases(tier, seed):
                 i += 1
 
 
+def fault_cases(tier, seed):
+    """A checkpoint call fails (answered at once, or kept in flight while sibling branches queue their own blocking STARTs behind
+    it): no at-most-once function may be entered for an attempt whose START the backend never accepted, in this invocation or in the
+    retried one."""
+    err = {"kind": "client", "status": 500, "code": "ServiceException", "message": "boom"}
+    i = 0
+    for nb in (2, 3):
+        brs = [{"body": [{"k": "step", "val": b, "sem": "most"}, {"k": "step", "script": [{"do": "fail", "cls": "ValueError", "msg": "x"}, {"do": "ok", "val": 1}],
+                                                                   "retry": {"decisions": [("retry", 1), ("stop",)]}, "sem": "most"}]} for b in range(nb)]
+        # the last branch reaches its first at-most-once step only once the failing call is in flight: its blocking START is queued
+        # behind that call, never sent, and must be answered with the failure
+        brs[-1] = {"body": [{"k": "gate", "name": "late"}] + brs[-1]["body"]}
+        for kind in ("par", "map"):
+            node = {"k": "par", "branches": brs, "cfg": {"preset": "all_completed"}} if kind == "par" else \
+                {"k": "map", "items": list(range(nb)), "per_item": brs, "body": [], "cfg": None}
+            body = [{"k": "step", "val": 0, "sem": "most"}, node, {"k": "step", "val": 9, "sem": "most"}]
+            for k in range(1, 9 if tier == "quick" else 14):
+                for delay in ((0, 30) if tier != "quick" or k % 2 else (30,)):
+                    yield {"label": "amo-checkpoint-failure", "prog": {"body": body}, "prog_seed": 1700 + i, "pattern": {"p": "plain"}, "max_inv": 14, "max_raises": 3,
+                           "faults": [{"match": {"op": "checkpoint", "n": k}, "err": err, "when": "before", "delay_ms": delay}],
+                           "latency_ms": (1, 4) if delay else None, "opts": {"hang_s": 3.0, "idle_s": 0.5},
+                           "holds": [{"match": {"kind": "gate", "name": "late"}, "until": {"event": {"kind": "api", "has": "fault", "this_inv": False}}, "delay_ms": 3}]}
+                    i += 1
+
+
 def explicit_all(tier, seed):
     yield from explicit(tier, seed)
     yield from lag_cases(tier, seed)
+    yield from fault_cases(tier, seed)
 
 
 SPEC = Spec(
@@ -65,7 +91,7 @@ SPEC = Spec(
     rule="at-most-once steps (strategies: SDK default / none / scripted k retries / packaged config) x failure scripts (succeed, "
     "fail-k-then-succeed, always fail), at top level and inside parallel branches x EVERY single crash point of the execution "
     "(before/after each API call, at every probe event incl. function entry/exit), plus random programs with random multi-crash and "
-    "asynchronous SIGKILL; plus retries driven by the in-process timer of a map/parallel whose sibling branch is still running while the service acts on the due timer 0.3-2.5 s late (the refreshed state still says PENDING). Oracle: step-function entries keyed by (position, backend Attempt counter at entry) occur at most once, "
+    "asynchronous SIGKILL; plus retries driven by the in-process timer of a map/parallel whose sibling branch is still running while the service acts on the due timer 0.3-2.5 s late (the refreshed state still says PENDING); plus a failing checkpoint call at each of the first 8-13 call positions of map/parallel blocks of at-most-once steps, answered at once or kept in flight 30 ms while sibling STARTs queue up behind it. Oracle: step-function entries keyed by (position, backend Attempt counter at entry) occur at most once, "
     "and at entry the backend holds the step STARTED. Non-trivial = an at-most-once step function was entered. "
     "A class = (program shape hash, interruption pattern, crash landing event kind).",
     deciding=lambda r: (r.get("stats") or {}).get("c04_entries", 0) > 0,
